@@ -203,7 +203,7 @@ func runC14(c *CaseCtx) (res CaseResult) {
 		return runC14Static(c, r)
 	}
 	names := []string{"alpha", "beta", "gamma", "delta", "x"}
-	subs := []string{"s", "t9"}
+	subs := []string{"s", "t9", "a+b", "k=v", "v1.2/x"}
 	list := func(n int, form int) []xLabel {
 		var out []xLabel
 		usedN := map[string]bool{}
@@ -542,6 +542,9 @@ func runC17(c *CaseCtx) (res CaseResult) {
 	if c.Idx%12 == 4 {
 		return runC17PanicFirst(c, r)
 	}
+	if c.Idx%12 == 2 {
+		return runC17Histories(c, r)
+	}
 	k := r.Intn(5)
 	var outT []reflect.Type
 	var vals []reflect.Value
@@ -771,6 +774,11 @@ func runC16(c *CaseCtx) (res CaseResult) {
 			v := mk(ti, id).Interface()
 			o := occ{key: i, ids: []int64{id}, call: r.Intn(2) == 0}
 			switch {
+			case r.Intn(5) == 0:
+				// a third spelling of the same key: Value.Arg() of a
+				// hand-made Value (names in any casing)
+				o.arg = (&am.Value{Name: recase(r, l.Name), Type: l.T, Subtype: l.Sub, Value: reflect.ValueOf(v)}).Arg()
+				res.obs("occurrences_given_through_Value.Arg", 1)
 			case l.Name != "" && l.Sub == "" && r.Intn(2) == 0:
 				// both spellings of one key must behave as one key
 				o.arg = am.Named(recase(r, l.Name), v)
@@ -996,6 +1004,56 @@ func runC16(c *CaseCtx) (res CaseResult) {
 				}
 			}
 			res.obs("shared_default_lists_checked", 1)
+			// the same Func: a call that overrides every default, then a call
+			// that overrides nothing — the defaults apply again
+			amb := func(i int) bool {
+				if ls[i].Name != "" {
+					return false
+				}
+				for j := range ls {
+					if j != i && ls[j].T == ls[i].T {
+						return true
+					}
+				}
+				return false
+			}
+			var over2 []am.Arg
+			want2 := map[int]int64{}
+			for i, l := range ls {
+				id++
+				want2[i] = id
+				v := mk(typeIndex(l.T), id).Interface()
+				if l.Name != "" {
+					over2 = append(over2, am.NamedSubtype(recase(r, l.Name), v, l.Sub))
+				} else {
+					over2 = append(over2, am.TypedSubtype(v, l.Sub))
+				}
+			}
+			for kk := range got {
+				delete(got, kk)
+			}
+			if rr := f2.Call(over2...); rr.Err() == nil {
+				for i := range ls {
+					if !amb(i) && got[i] != want2[i] {
+						res.violate("C16", "call-option-does-not-override-default", fmt.Sprintf("parameter %v received #%d, the call option carries #%d", ls[i], got[i], want2[i]), det)
+					}
+				}
+			}
+			for kk := range got {
+				delete(got, kk)
+			}
+			rr = f2.Call()
+			res.Evals += 2
+			if rr.Err() != nil {
+				res.violate("C16", "defaults-disturbed", "the defaults satisfy every parameter, but after a call that overrode them the call without options fails: "+firstLine(rr.Err().Error()), det)
+			} else {
+				for i := range ls {
+					if !amb(i) && got[i] != base[i] {
+						res.violate("C16", "defaults-disturbed", fmt.Sprintf("parameter %v received #%d instead of its default #%d: the override given to an earlier call of the same Func persists", ls[i], got[i], base[i]), det)
+					}
+				}
+			}
+			res.obs("override_then_default_histories", 1)
 		}
 	}
 	res.NonTrivial = multi || split
@@ -1086,6 +1144,158 @@ func runC17PanicFirst(c *CaseCtx, r *rand.Rand) (res CaseResult) {
 		}
 		res.obs("calls_after_injected_panic", 1)
 	}
+	res.Sample = det
+	return res
+}
+
+// runC17Histories: (a) a function built with BuildFunc over the positional
+// output set of a function returning (k values, error, error): the set's last
+// value has type error and is an ORDINARY output of the built function (an
+// error that is not in final position); (b) a run-once function used as a
+// target: after a successful first call, a call whose resolution fails has
+// length 0 and a non-nil error, memoized result or not.
+func runC17Histories(c *CaseCtx, r *rand.Rand) (res CaseResult) {
+	res.NonTrivial = true
+	defer func() {
+		if p := recover(); p != nil {
+			res.violate("C06", "panic/result-"+crashKey(fmt.Sprint(p)), fmt.Sprintf("panicked: %v", p), map[string]interface{}{"case": res.Key})
+		}
+	}()
+	if r.Intn(2) == 0 {
+		k := r.Intn(3)
+		res.Key = fmt.Sprintf("built-over-positional-set-ending-in-error k=%d", k)
+		det := map[string]interface{}{"case": res.Key}
+		outT := []reflect.Type{}
+		for i := 0; i < k; i++ {
+			outT = append(outT, types[i])
+		}
+		outT = append(outT, errT, errT)
+		proto := reflect.MakeFunc(reflect.FuncOf(nil, outT, false), func([]reflect.Value) []reflect.Value {
+			out := make([]reflect.Value, len(outT))
+			for i, t := range outT {
+				out[i] = reflect.Zero(t)
+			}
+			return out
+		})
+		f0, err := am.NewFunc(proto.Interface())
+		if err != nil {
+			res.violate("C14", "accepted-shape-rejected", "NewFunc rejected func() (..., error, error): "+err.Error(), det)
+			return res
+		}
+		set := f0.Output()
+		if n := len(set.Values()); n != k+1 {
+			res.violate("C14", "output-values-differ", fmt.Sprintf("Output() of a function returning %d values, error, error lists %d values, want %d", k, n, k+1), det)
+			return res
+		}
+		warn := errors.New("a warning value, not a failure")
+		var cbErr error
+		if r.Intn(3) == 0 {
+			cbErr = errors.New("callback failure")
+		}
+		warnNil := r.Intn(3) == 0
+		built, err := am.BuildFunc(nil, set, func(in, out *am.ValueSet) error {
+			for i := 0; i < k; i++ {
+				out.Typed(types[i]).Value = mk(i, int64(100+i))
+			}
+			if !warnNil {
+				out.Typed(errT).Value = reflect.ValueOf(&warn).Elem()
+			} else {
+				out.Typed(errT).Value = reflect.Zero(errT)
+			}
+			return cbErr
+		})
+		if err != nil {
+			res.violate("C15", "build-rejected", "BuildFunc rejected a function's own output set: "+err.Error(), det)
+			return res
+		}
+		rr := built.Call()
+		res.Evals++
+		if rr.Err() != cbErr {
+			res.violate("C17", "err-identity", fmt.Sprintf("Err() = %v, the callback returned %v (the set's error-typed value is an ordinary output)", rr.Err(), cbErr), det)
+		}
+		if cbErr == nil {
+			if rr.Len() != k+1 {
+				res.violate("C17", "len", fmt.Sprintf("Len() = %d, the built function has %d ordinary outputs", rr.Len(), k+1), det)
+			} else {
+				for i := 0; i < k; i++ {
+					if id, _ := idOfIface(rr.Out(i)); id != int64(100+i) {
+						res.violate("C17", "out", fmt.Sprintf("Out(%d) carries #%d, want #%d", i, id, 100+i), det)
+					}
+				}
+				last := rr.Out(k)
+				if (!warnNil && last != error(warn)) || (warnNil && last != nil) {
+					res.violate("C17", "out", fmt.Sprintf("Out(%d) = %v, want the error-typed ordinary output %v", k, last, map[bool]interface{}{false: warn, true: nil}[warnNil]), det)
+				}
+			}
+		}
+		res.obs("built_over_set_ending_in_error", 1)
+		res.Sample = det
+		return res
+	}
+	// (b)
+	k := 1 + r.Intn(2)
+	res.Key = fmt.Sprintf("run-once-target-then-unsatisfiable-call k=%d", k)
+	det := map[string]interface{}{"case": res.Key}
+	execs := 0
+	outT := []reflect.Type{}
+	for i := 0; i < k; i++ {
+		outT = append(outT, types[1+i])
+	}
+	if r.Intn(2) == 0 {
+		outT = append(outT, errT)
+	}
+	fn := reflect.MakeFunc(reflect.FuncOf([]reflect.Type{types[0]}, outT, false), func(a []reflect.Value) []reflect.Value {
+		execs++
+		out := make([]reflect.Value, len(outT))
+		for i, t := range outT {
+			out[i] = reflect.Zero(t)
+			if t != errT {
+				out[i] = mk(1+i, int64(200+i))
+			}
+		}
+		return out
+	})
+	f, err := am.NewFunc(fn.Interface(), am.FuncOnce())
+	if err != nil {
+		res.Skip = "newfunc"
+		return res
+	}
+	first := f.Call(am.Typed(mk(0, 1).Interface()))
+	res.Evals++
+	if first.Err() != nil || first.Len() != k || execs != 1 {
+		res.violate("C17", "len", fmt.Sprintf("first call of the run-once target: Err()=%v Len()=%d executions=%d", first.Err(), first.Len(), execs), det)
+		return res
+	}
+	var bad am.Result
+	why := ""
+	switch r.Intn(3) {
+	case 0:
+		why = "missing argument"
+		bad = f.Call()
+	case 1:
+		why = "nil option"
+		bad = f.Call(am.Typed(mk(0, 2).Interface()), nil)
+	default:
+		why = "failing converter on the only path"
+		convErr := errors.New("converter failure")
+		bad = f.Call(am.Typed(mk(5, 3).Interface()), am.Converter(func(T5) (T0, error) { return T0{}, convErr }))
+		if bad.Err() != convErr {
+			res.violate("C04", "error-not-verbatim", fmt.Sprintf("the converter on the only path failed, Err() = %v", bad.Err()), det)
+		}
+	}
+	res.Evals++
+	if bad.Err() == nil || bad.Len() != 0 {
+		res.violate("C17", "len-on-failure", fmt.Sprintf("resolution fails (%s) on an already executed run-once target: Err()=%v Len()=%d, want a non-nil error and length 0", why, bad.Err(), bad.Len()), det)
+	}
+	if execs != 1 {
+		res.violate("C11", "once-reexecuted", fmt.Sprintf("run-once target executed %d times", execs), det)
+	}
+	again := f.Call(am.Typed(mk(0, 4).Interface()))
+	res.Evals++
+	if again.Err() != nil || again.Len() != k {
+		res.violate("C17", "len", fmt.Sprintf("satisfiable call after the failed one: Err()=%v Len()=%d", again.Err(), again.Len()), det)
+	}
+	res.obs("run_once_target_then_unsatisfiable_call", 1)
 	res.Sample = det
 	return res
 }
